@@ -84,6 +84,31 @@ func mgmtScenario(cfg mgmtCfg) *hx.Scenario {
 	}
 }
 
+// two management calls against each other (no execution)
+type mgmt2Cfg struct {
+	A string `json:"a"`
+	B string `json:"b"`
+}
+
+func mgmt2Scenario(cfg mgmt2Cfg) *hx.Scenario {
+	template, err := engine.NewGenginePool(1, 2, engine.SortModel, c07Text(c07V1), map[string]interface{}{"hook": func(string) { vsched.Obs() }})
+	if err != nil {
+		vsched.InternalError("pool: %v", err)
+	}
+	return &hx.Scenario{
+		Name: "mgmt2",
+		Cfg:  cfg,
+		New:  func() interface{} { return new(int) },
+		Body: func(s interface{}) {
+			gp := gx.DeepClone(template).(*engine.GenginePool)
+			vsched.Go(func() { gx.CallGuarded(func() error { mgmtOps[cfg.A](gp); return nil }) })
+			vsched.Go(func() { gx.CallGuarded(func() error { mgmtOps[cfg.B](gp); return nil }) })
+			vsched.WaitOthersDone()
+		},
+		Check: func(s interface{}, ex *vsched.Exec) []hx.Finding { return nil },
+	}
+}
+
 func c19Scenarios(thorough bool) (out []*hx.Scenario, bounds []int) {
 	add := func(kind string, sc *hx.Scenario, b int) {
 		out = append(out, c19Wrap(kind, sc))
@@ -136,6 +161,12 @@ func c19Scenarios(thorough bool) (out []*hx.Scenario, bounds []int) {
 			add("mgmt", mgmtScenario(mgmtCfg{Op: op, Model: m}), 1)
 		}
 	}
+	// every query / update against every update
+	for _, a := range mgmtOpNames {
+		for _, b := range []string{"full", "incr", "remove", "clear", "clear+incr", "setmodel"} {
+			add("mgmt2", mgmt2Scenario(mgmt2Cfg{A: a, B: b}), 1)
+		}
+	}
 	return
 }
 
@@ -158,6 +189,10 @@ func c19Rebuild(v *hx.Violation) *hx.Scenario {
 		var c c07Cfg
 		json.Unmarshal(cfg.Inner, &c)
 		return c19Wrap("update", c07Scenario(c))
+	case "mgmt2":
+		var c mgmt2Cfg
+		json.Unmarshal(cfg.Inner, &c)
+		return c19Wrap("mgmt2", mgmt2Scenario(c))
 	case "mgmt":
 		var c mgmtCfg
 		json.Unmarshal(cfg.Inner, &c)
@@ -173,24 +208,24 @@ func init() {
 		BudgetQuick: 170 * time.Second,
 		BudgetThor:  30 * time.Minute,
 		Kind:        "schedules",
-		Rule: "happens-before race monitor (vector clocks; edges: unlock->lock, RUnlock->Lock, WaitGroup.Done->Wait, go statement) over the hooked shared-memory accesses of every explored execution of: all goroutine-spawning engine models (4 rules, one failing, called twice), conc blocks, pool request scenarios (3 clients / reuse / panicking request / conservation phase) through 5 execute methods, every update kind || every pool execution model, update from inside a rule, and every management call (5 updates incl. clear, SetExecModel, 5 queries) || two executions; " +
-			"each scenario explored under every schedule with <=1 (thorough 2) preemptions, then re-explored with every racy access site turned into a scheduling point until no new racy site appears. Observer calls create NO happens-before edges. " + fmt.Sprint("Oracle: no two conflicting accesses unordered by happens-before"),
+		Rule: "happens-before race monitor (vector clocks; edges: unlock->lock, RUnlock->Lock, WaitGroup.Done->Wait, go statement) over the hooked shared-memory accesses of every explored execution of: all goroutine-spawning engine models (4 rules, one failing, called twice), conc blocks, pool request scenarios (3 clients / reuse / panicking request / conservation phase) through 5 execute methods, every update kind || every pool execution model, update from inside a rule, every management call (5 updates incl. clear, SetExecModel, 5 queries) || two executions, and every management call || every update; " +
+			"each scenario explored under every schedule with <=2 (thorough 3) deviations from the default scheduler (delay bounding), then re-explored with every racy access site turned into a scheduling point until no new racy site appears. Observer calls create NO happens-before edges. " + fmt.Sprint("Oracle: no two conflicting accesses unordered by happens-before"),
 		Assume: []string{"accesses the instrumenter does not hook (slice elements, state reached only through reflect) are seen only by the free-running `go test -race`-style cross-check, not by this check", "sequential consistency for the explored control flow"},
 		Run: func(c *hx.Ctx) {
 			scs, bounds := c19Scenarios(c.Thorough())
 			for i, sc := range scs {
-				if !c.Mine(i) {
-					continue
-				}
 				if c.Expired() {
 					c.Res.Capped = append(c.Res.Capped, "time budget before all scenarios")
 					break
 				}
 				b := bounds[i]
-				if c.Thorough() {
-					b++
+				if b > 0 {
+					b = delayBound(c, b)
 				}
-				hx.Explore("C19", sc, hx.ExploreCfg{Bound: envBound(b), Prune: true, Races: true, AutoSites: true, Deadline: c.Deadline}, c.Res)
+				if !c.Mine(i) {
+					continue // not split across workers: the racy-site fix-point must see the whole schedule tree
+				}
+				hx.Explore("C19", sc, hx.ExploreCfg{Bound: envBound(b), Delay: true, Prune: true, Races: true, AutoSites: true, Deadline: c.Deadline}, c.Res)
 			}
 		},
 		Rebuild: c19Rebuild,
